@@ -70,6 +70,32 @@ class Bip143(object):
                     return ('int', fmt_str(fmt), rel(e.args[1]))
         return None
 
+    def buf_expr(self, e, sym):
+        """elements of a bytes-valued expression: concatenations, tracked buffers, b''.join(<generator over a sequence>),
+        single serialisations / struct.pack -> tuple of elements, None if not understood"""
+        repo, fi = self.repo, self.fi
+        v = repo.fold(e, fi.module)
+        if isinstance(v, bytes):
+            return () if not v else None
+        if isinstance(e, ast.Name):
+            cur = sym.get(e.id)
+            return cur[1] if cur and cur[0] == 'buf' else None
+        if isinstance(e, ast.BinOp) and isinstance(e.op, ast.Add):
+            a, b = self.buf_expr(e.left, sym), self.buf_expr(e.right, sym)
+            return None if a is None or b is None else a + b
+        if isinstance(e, ast.Call) and isinstance(e.func, ast.Attribute) and e.func.attr == 'join' and len(e.args) == 1 \
+                and repo.fold(e.func.value, fi.module) == b'' and isinstance(e.args[0], (ast.GeneratorExp, ast.ListComp)):
+            g = e.args[0]
+            if len(g.generators) == 1 and not g.generators[0].ifs and isinstance(g.generators[0].target, ast.Name):
+                el = self.element(g.elt, g.generators[0].target.id)
+                if el is not None:
+                    return (('loop', norm(g.generators[0].iter), (el,)),)
+            return None
+        el = self.element(e, None)
+        if el is not None:
+            return (el,)
+        return None
+
     def row(self, ht, idx, nout):
         """symbolic values of the three sub-hashes for one (hash type, index/output-count ordering) -> dict or str(problem)"""
         repo, fi = self.repo, self.fi
@@ -100,17 +126,17 @@ class Bip143(object):
                 sym[name] = ('bytes', v) if v else ('buf', ())
                 return None
             hk = hash_kind(repo, s.value, fi)
-            if hk == 'Hash' and len(s.value.args) == 1 and isinstance(s.value.args[0], ast.Name):
-                src = sym.get(s.value.args[0].id)
-                if src is None or src[0] != 'buf':
-                    return 'hash of something that is not a tracked buffer: %s' % norm(s)
-                sym[name] = ('hash', src[1])
+            if hk == 'Hash' and len(s.value.args) == 1:
+                els = self.buf_expr(s.value.args[0], sym)
+                if els is None:
+                    return 'hash of something that is not a tracked buffer: %s' % norm(s)[:90]
+                sym[name] = ('hash', els)
                 return None
             if hk is not None:
                 return 'unexpected hash helper in `%s`' % norm(s)
-            el = self.element(s.value, None)
-            if el is not None:
-                sym[name] = ('buf', (el,))
+            els = self.buf_expr(s.value, sym)
+            if els is not None:
+                sym[name] = ('buf', els)
                 return None
             return 'unmodelled assignment `%s`' % norm(s)[:80]
         if isinstance(s, ast.For):
